@@ -102,6 +102,15 @@ CLAIMED = {
             'Trusts harness/fakeconn.py (line reads are not segmented: asyncio StreamReader), the RFC reference written in the harness, the zlib '
             'model; bounds: body <=3 bytes (thorough 6), <=2 chunks, <=2 cuts (4); TE spellings other than "chunked" outside; known finding D11.',
             'DESIGN.md 3/C08', 'body bytes, cuts, truncation point, lengths, status code symbolic'),
+    'C04': ('other',
+            'Bounded symbolic verification through the real HTTP Client/Session/Stream with the real WARCRecorder and recorder session '
+            'listening: the server stream is a parametrised header family (line ends, colon spacing, name case, obs-fold, duplicate and empty '
+            'fields) with Content-Length (exact/overrun), chunked (extension, trailer) or read-until-close framing, symbolic body bytes and '
+            'symbolic read cuts; the written WARC file is re-parsed by an independent strict reader and the response/request blocks compared '
+            'byte for byte with what the fake server sent/received; record pairing over one and two exchanges.',
+            'Trusts harness/warcenv.py (fake FS, temp files, uninterpreted SHA-1, fixed clock/uuid, stub pool, wait_for passthrough) and '
+            'FakeConnection; body <=2 bytes (thorough 3), <=2 cuts (3); TLS/proxies outside.',
+            'DESIGN.md 3/C04', 'body bytes and read cuts symbolic; header formatting enumerated'),
 }
 
 NOT_APPLICABLE = {
@@ -111,7 +120,7 @@ NOT_APPLICABLE = {
 }
 
 PENDING = {k: 'claimed in DESIGN.md 3 but its check is not built yet at this commit' for k in
-           'C04 C05 C07 C09 C10 C15 C20'.split()}
+           'C05 C07 C09 C10 C15 C20'.split()}
 
 
 def main():
